@@ -971,8 +971,9 @@ class Router:
         # Step 2: look up DE PV from LocT
         de_entry = self.location_table.get_entry(
             request.destination) if request.destination else None
-        if de_entry is None:
-            # No LocTE for destination → invoke Location Service (§10.3.7.1.2)
+        if de_entry is None or de_entry.ls_pending is True:
+            # No LocTE for destination, or only the placeholder of a lookup that is still in progress
+            # → invoke Location Service (§10.3.7.1.2), which queues the request behind the waiting ones
             assert request.destination is not None
             self.gn_ls_request(request.destination, request)
             return GNDataConfirm(result_code=ResultCode.ACCEPTED)
@@ -1299,8 +1300,8 @@ class Router:
         """
         with self._ls_lock:
             entry = self.location_table.get_entry(sought_gn_addr)
-            if entry is not None and entry.ls_pending:
-                # LS already in-progress → just queue the request
+            if (entry is not None and entry.ls_pending) or sought_gn_addr in self._ls_packet_buffers:
+                # LS already in-progress (also when the placeholder LocTE has expired meanwhile) → just queue the request
                 if buffered_request is not None:
                     self._ls_packet_buffers.setdefault(
                         sought_gn_addr, []).append(buffered_request)
